@@ -13,9 +13,9 @@ def dumpPool (p : Pool) : String :=
 
 def stepCLPool (p : Pool) (op : String) (args : List String) : Pool × String :=
   match op, args with
-  | "reset", [spacing, spf] =>
-    match ints [spacing, spf] with
-    | some [spacing, spf] => ({ spacing := spacing, spf := spf }, "ok")
+  | "reset", [spacing, spf, scale] =>
+    match ints [spacing, spf, scale] with
+    | some [spacing, spf, scale] => ({ spacing := spacing, spf := spf, scale := scale }, "ok")
     | _ => (p, "bad-op")
   | "create", [owner, lower, upper, a0, a1] =>
     match ints [lower, upper, a0, a1] with
